@@ -482,6 +482,12 @@ func (r *Runner) replayObligation(prop string, o *Obligation) (*ReplayRecord, st
 	var sess *smtSession
 	var first string
 	var err error
+	candidate := false
+	if o.Kind == "lock.held" || o.Kind == "lock.order" {
+		if rr := r.raceReplay(rec, o); rr {
+			return save()
+		}
+	}
 	if o.Status == "sat" {
 		sess, first, err = startSession(o.QueryWith(true, o.byteAxioms()))
 	} else {
@@ -489,6 +495,7 @@ func (r *Runner) replayObligation(prop string, o *Obligation) (*ReplayRecord, st
 		// model with the quantified hypotheses dropped; it is trusted only if it replays
 		sess, first, err = startSession(o.queryOpts(true, nil, true))
 		rec.SolverOut += "\n(model search with quantified hypotheses dropped: candidate only)"
+		candidate = true
 	}
 	if err != nil || strings.TrimSpace(first) != "sat" {
 		if sess != nil {
@@ -626,6 +633,12 @@ func (r *Runner) replayObligation(prop string, o *Obligation) (*ReplayRecord, st
 	rec.Command = cmdline
 	rec.Output = truncate(out, 4000)
 	rec.Verdict, rec.Reason = judgeReplay(o, out, expect)
+	if candidate && rec.Verdict == "confirmed" {
+		// the input came from a query without the quantified hypotheses (it may violate the
+		// function's precondition), so the run is recorded but not counted as a failing input
+		rec.Verdict = "candidate-reproduced"
+		rec.Reason = "candidate input (quantified hypotheses were dropped when searching for it; it may violate the precondition): " + rec.Reason
+	}
 	return save()
 }
 
@@ -701,6 +714,10 @@ func canonMatch(model, real string) bool {
 }
 
 func runOverlayTest(repo, pkgPath, testSrc, testName string) (string, string) {
+	return runOverlayTestFlags(repo, pkgPath, testSrc, testName, nil)
+}
+
+func runOverlayTestFlags(repo, pkgPath, testSrc, testName string, flags []string) (string, string) {
 	scratch, _ := os.MkdirTemp("", "govc-replay")
 	defer os.RemoveAll(scratch)
 	tf := filepath.Join(scratch, "vrf_replay_test.go")
@@ -710,7 +727,9 @@ func runOverlayTest(repo, pkgPath, testSrc, testName string) (string, string) {
 	ov, _ := json.Marshal(map[string]map[string]string{"Replace": {target: tf}})
 	ovf := filepath.Join(scratch, "ov.json")
 	os.WriteFile(ovf, ov, 0644)
-	args := []string{"test", "-overlay", ovf, "-vet=off", "-count=1", "-timeout", "60s", "-run", "^" + testName + "$", "-v", "./" + rel}
+	args := []string{"test", "-overlay", ovf, "-vet=off", "-count=1", "-timeout", "60s"}
+	args = append(args, flags...)
+	args = append(args, "-run", "^"+testName+"$", "-v", "./"+rel)
 	cmd := exec.Command("go", args...)
 	cmd.Dir = repo
 	cmd.Env = append(os.Environ(), "GOFLAGS=-mod=mod", "GOPROXY=off", "GOSUMDB=off", "GOTOOLCHAIN=local", "GOMEMLIMIT=2GiB")
@@ -719,4 +738,89 @@ func runOverlayTest(repo, pkgPath, testSrc, testName string) (string, string) {
 	cmd.Stderr = &buf
 	cmd.Run()
 	return buf.String(), "cd " + repo + " && go " + strings.Join(args, " ") + "   (overlay injects the test below as " + target + ")"
+}
+
+// raceReplay: for a lock obligation of a template-cache method, run the method against concurrent
+// inserts under the race detector (a schedule found by running, reported as such).
+func (r *Runner) raceReplay(rec *ReplayRecord, o *Obligation) bool {
+	fc := o.fc
+	if fc == nil || fc.decl == nil {
+		return false
+	}
+	sig := fc.obj.Type().(*types.Signature)
+	if sig.Recv() == nil || !strings.HasSuffix(types.TypeString(sig.Recv().Type(), nil), "MemCache") {
+		return false
+	}
+	var args []string
+	for i := 0; i < sig.Params().Len(); i++ {
+		switch types.TypeString(sig.Params().At(i).Type(), nil) {
+		case "string":
+			args = append(args, "vrfFile")
+		case "uint16":
+			args = append(args, "uint16(300)")
+		case "net.IP":
+			args = append(args, "net.IP{10, 0, 0, 1}")
+		default:
+			if strings.HasSuffix(types.TypeString(sig.Params().At(i).Type(), nil), "TemplateRecord") {
+				args = append(args, "TemplateRecord{TemplateID: 300}")
+			} else {
+				return false
+			}
+		}
+	}
+	recv := "vrfM"
+	if _, ptr := sig.Recv().Type().(*types.Pointer); ptr {
+		recv = "(&vrfM)"
+	}
+	ins := "vrfM.insert"
+	if fc.pkg.Types.Name() == "netflow9" {
+		ins = "(&vrfM).insert"
+	}
+	src := "package " + fc.pkg.Types.Name() + `
+
+import (
+	"net"
+	"os"
+	"sync"
+	"testing"
+)
+
+var _ = net.IPv4len
+
+func TestVrfReplay(t *testing.T) {
+	vrfM := GetCache("")
+	f, _ := os.CreateTemp("", "vrf")
+	vrfFile := f.Name()
+	f.Close()
+	defer os.Remove(vrfFile)
+	var wg sync.WaitGroup
+	wg.Add(2)
+	go func() {
+		defer wg.Done()
+		for i := 0; i < 2000; i++ {
+			` + ins + `(uint16(256+i%64), net.IP{10, 0, byte(i >> 8), byte(i)}, TemplateRecord{TemplateID: uint16(256 + i%64)})
+		}
+	}()
+	go func() {
+		defer wg.Done()
+		for i := 0; i < 50; i++ {
+			` + recv + "." + fc.obj.Name() + "(" + strings.Join(args, ", ") + `)
+		}
+	}()
+	wg.Wait()
+}
+`
+	rec.Test = src
+	rec.TestPkg = fc.pkg.PkgPath
+	out, cmdline := runOverlayTestFlags(r.w.RepoDir, fc.pkg.PkgPath, src, "TestVrfReplay", []string{"-race"})
+	rec.Command = cmdline
+	rec.Output = truncate(out, 4000)
+	if strings.Contains(out, "DATA RACE") || strings.Contains(out, "concurrent map") {
+		rec.Verdict = "confirmed"
+		rec.Reason = "go test -race: DATA RACE between " + fc.obj.Name() + " and a concurrent insert (schedule found by running)"
+	} else {
+		rec.Verdict = "not-reproduced"
+		rec.Reason = "no data race observed in the sampled schedules"
+	}
+	return true
 }
